@@ -657,21 +657,9 @@ fn main() {
     });
 }
 ''')
-P("C13", "index_write_rangefull", "E0277|E0599|E0608", "Write indexed with an index type outside the IndexWrite whitelist", '''
-#[derive(Collect)]
-#[collect(no_drop)]
-struct V<'gc> { v: Vec<RefLock<Option<Gc<'gc, i32>>>> }
-fn main() {
-    let arena = Arena::<Rootable![Gc<'_, V<'_>>]>::new(|mc| Gc::new(mc, V { v: vec![RefLock::new(None)] }));
-    arena.mutate(|mc, root| {
-        let w = field!(Gc::write(mc, *root), V, v);
-        #[cfg(bad)]
-        { let all: &Write<[RefLock<Option<Gc<i32>>>]> = &w[..]; let _ = all; }
-        #[cfg(not(bad))]
-        { *w[0].unlock().borrow_mut() = Some(Gc::new(mc, 1)); }
-    });
-}
-''')
+# (removed: a probe demanding that `w[..]` on a &Write<[T]> be rejected. RangeFull on an owning slice is a sound
+# index; the probe pinned today's impl list rather than an escape and fired on a benign new impl. The impl list is
+# reviewed by rule R13.3 instead.)
 P("C13", "legit_uses", None, "documented legitimate uses keep compiling", '''
 #[derive(Collect)]
 #[collect(no_drop)]
